@@ -1,6 +1,7 @@
 package main
 
 import (
+	"errors"
 	"io"
 )
 
@@ -41,7 +42,12 @@ func NewDevPort(id uint16) *DevPort {
 	return &DevPort{Regs: map[uint16]DevAnswer{}, Seq: map[uint16][][]byte{}, Id: id, SilentAfter: -1}
 }
 
+var errPortClosed = errors.New("port is closed")
+
 func (d *DevPort) Write(b []byte) (int, error) {
+	if d.Closed {
+		return 0, errPortClosed
+	}
 	d.Frames = append(d.Frames, append([]byte(nil), b...))
 	fs := grammarFrames(b)
 	if len(fs) != 1 {
@@ -94,6 +100,9 @@ func (d *DevPort) Write(b []byte) (int, error) {
 }
 
 func (d *DevPort) Read(b []byte) (int, error) {
+	if d.Closed {
+		return 0, errPortClosed
+	}
 	d.reads++
 	if d.reads > 50*opBudget {
 		panic(budgetExceeded{}) // a call that keeps reading from a silent device is looping
